@@ -9,8 +9,7 @@
      PinStmt d   additionally the text of the whole statement (a `for`: header and body; a "call": also
                  the text of the callee)
      PinFn d     additionally the text of the whole enclosing fn (the consumer spans several statements)
-   Rows "after fixes/...diff" classify the sites as they look once the corresponding patch of
-   /verif/fixes is applied (each was produced by applying the patch and re-running the scanner).
+   Re-audited against /repo at eb822a9 (after the four c19 fix commits): every row below describes a site of that tree.
 
    Definitions only. *)
 From Coq Require Import String List Bool.
@@ -29,64 +28,46 @@ Record row := mk_row {
 }.
 
 Definition table : list row := [
-  (* line 658; impl rib::Rib (field defs: HashMap<Ident, RibEntry>)
+  (* src/ast/meta.rs ParseObject::finish -- valid_fields: HashSet<&'static str>
+     `for key in self.map.keys() { if !self.valid_fields.iter().map(..).any(|x| x == key) { return Err(UnrecognizedField) } }`:
+     the hash set is only tested for membership (the outer loop runs over `map`, an IndexMap of the source fields) *)
+  mk_row "ast/meta.rs" "ParseObject::finish" "iter" "self.valid_fields.iter()" 1 ["4a69e45151"] (PinStmt "f69cbdb4de") AnyAll "";
+  (* src/context/defs.rs CompilerContext::extend_from_mapfile -- `mapfile.enums.iter().map(|(enum_name, enum_pairs)| { declare_enum; define_enum_const.. })`
+     Mapfile::enums is an IndexMap filled from a BTreeMap (commit bba6707; it was an IdMap: the enums were declared, their consts queued for
+     evaluation / equality checks and listed in the debug info in hash order).  The scanner still lists the site because two other fields
+     called `enums` (Defs::enums, ConstNames::enums) are hash maps: this declaration digest is exactly those two. *)
+  mk_row "context/defs.rs" "CompilerContext::extend_from_mapfile" "iter" "mapfile.enums.iter()" 1 ["70ff796cef"] (PinStmt "7f192a11fb") NotHash "";
+  (* src/context/defs.rs CompilerContext::get_const_names -- Defs::enums: IdMap<Ident, EnumData>
+     `defs.enums.iter().map(|(key, data)| (key.clone(), data.generate_lookup(consts))).collect()` into ConstNames::enums (an IdMap again), which
+     is only indexed by key (llir/raise/early.rs); generate_lookup walks EnumData::consts, an IndexMap, so each value is a function of its entry *)
+  mk_row "context/defs.rs" "CompilerContext::get_const_names" "iter" "defs.enums.iter()" 1 ["70ff796cef"] (PinStmt "2d29797ea9") CollectHash "";
+  (* src/context/defs.rs CompilerContext::all_signatures -- Defs::instrs: IdMap<(LanguageKey, Opcode), InsData> (commit c2b9bc7)
+     `let mut ins_sigs = self.defs.instrs.iter().map(|(&key, data)| (key, &data.sig)).collect::<Vec<_>>(); ins_sigs.sort_by_key(|&(key, _)| key);`
+     the keys of one map are distinct, so the sorted vector does not depend on the iteration order (whole fn pinned: the sort is the next statement) *)
+  mk_row "context/defs.rs" "CompilerContext::all_signatures" "iter" "self.defs.instrs.iter()" 1 ["1fd467afe8"] (PinFn "17441ce31c") CollectThenSort "";
+  (* the same for Defs::funcs: IdMap<DefId, FuncData>: `.iter().filter_map(..).collect::<Vec<_>>()` then `sort_by_key(|&(key, _)| key)` *)
+  mk_row "context/defs.rs" "CompilerContext::all_signatures" "iter" "self.defs.funcs.iter()" 1 ["3fc400d9dd"] (PinFn "17441ce31c") CollectThenSort "";
+  (* src/context/defs.rs CompilerContext::validate_mapfile_signatures -- `self.all_signatures().map(|siggy| ..validate_param_ty_color..).collect_with_recovery()`
+     emits one "no such enum" error per bad signature in the order all_signatures yields: the two sorted vectors, chained.  The statement digest of a
+     "call" site covers the callee, so an edit of all_signatures (e.g. dropping a sort) invalidates this row too. *)
+  mk_row "context/defs.rs" "CompilerContext::validate_mapfile_signatures" "call" "self.all_signatures()" 1 ["bffb93324c"] (PinStmt "1774c2f2ec") CollectThenSort "";
+  (* src/context/defs.rs Defs::find_similar_enum_name -- Defs::enums keys (commit eb822a9)
+     `self.enums.keys().map(|candidate| (candidate, osa_distance(..))).min_by_key(|&(candidate, distance)| (distance, candidate)).filter(..)`:
+     the minimum for the lexicographic order on (distance, name), total on distinct names (it was min_by_key(distance): first of the ties in hash order) *)
+  mk_row "context/defs.rs" "Defs::find_similar_enum_name" "keys" "self.enums.keys()" 1 ["70ff796cef"] (PinStmt "96097af053") MinByTotalKey "";
+  (* src/llir/raise/infer_pcb_signatures.rs infer_from_calls -- `for instr in &mut script.instrs`: RaiseScript::instrs is a Vec<RaiseInstr>;
+     the field name collides with Defs::instrs (this declaration digest).  The IdMap built in this fn (`signatures`) is only entered/looked up. *)
+  mk_row "llir/raise/infer_pcb_signatures.rs" "CallRegSignatures::infer_from_calls" "for" "for instr in&mut script.instrs" 1 ["2422e9ab6a"] PinDecl NotHash "";
+  (* src/resolve/mod.rs Visitor::new -- `ctx.defs.initial_ribs().into_iter().collect()`: Defs::initial_ribs returns a Vec built from two
+     EnumMap<LanguageKey, Rib> (in key order) and two single ribs; `defs` collides with rib::Rib::defs (a HashMap that is only entered/looked up) *)
+  mk_row "resolve/mod.rs" "Visitor::new" "into_iter" "ctx.defs.initial_ribs().into_iter()" 1 ["597f776878"] PinDecl NotHash "";
+  (* src/resolve/mod.rs impl rib::Rib (field defs: HashMap<Ident, RibEntry>), fn noun
      `(RibKind::LocalBarrier { .. }, ns) | (RibKind::DummyRoot, ns) => panic!("noun called on {:?} {:?} rib", self, ns)`: the Debug text of
      a Rib lists its hash map in iteration order, but only inside the message of a panic that reports an internal bug *)
   mk_row "resolve/mod.rs" "Rib::noun" "fmt-debug" "panic!(""noun called on{:?}{:?}rib"",self,ns)" 1 ["db029df000"] (PinStmt "2cb1862eba") BugPanicMessage "";
-  (* line 335; valid_fields:field: HashSet<&'static str>
-     HashSet<&str>: `.iter().map(..).any(|x| x == key)` -- an existence test *)
-  mk_row "ast/meta.rs" "ParseObject::finish" "iter" "self.valid_fields.iter()" 1 ["4a69e45151"] (PinStmt "f69cbdb4de") AnyAll "";
-  (* line 796; enums:field: IdMap<Ident,EnumData>|field: IdMap<Ident,ScalarValueMap<Sp<Ident>>>|field: IdMap<Sp<Ident>,Vec<(i32,Sp<Ident>)>>
-     DEFECT: Mapfile::enums is an IdMap; each entry is declared in iteration order: declare_enum, then define_enum_const allocates DefIds, pushes to Consts::deferred_ids and to deferred_equality_checks -- and evaluate_all_deferred reports only the FIRST failing equality check, so which "ambiguous value for enum const" error appears depends on the hash order; Consts::debug_info lists the consts in the same order in the --output-debug-info file (fixes/c19-mapfile-enum-order.diff) *)
-  mk_row "context/defs.rs" "CompilerContext::extend_from_mapfile" "iter" "mapfile.enums.iter()" 1 ["c0aa526eb3"] (PinStmt "7f192a11fb") EmitInIterationOrder "extend_from_mapfile/mapfile.enums";
-  (* line 796; enums:field: IdMap<Ident,EnumData>|field: IdMap<Ident,ScalarValueMap<Sp<Ident>>>|field: IdMap<Sp<Ident>,Vec<(i32,Sp<Ident>)>>
-     after fixes/c19-mapfile-enum-order.diff: Mapfile::enums is an IndexMap filled from a BTreeMap (only the two Defs-side `enums` fields remain hash maps: this declaration digest) *)
-  mk_row "context/defs.rs" "CompilerContext::extend_from_mapfile" "iter" "mapfile.enums.iter()" 1 ["70ff796cef"] (PinStmt "7f192a11fb") NotHash "";
-  (* line 900; defs:field: HashMap<Ident,RibEntry> ; enums:field: IdMap<Ident,EnumData>|field: IdMap<Ident,ScalarValueMap<Sp<Ident>>>|field: IdMap<Sp<Ident>,Vec<(i32,Sp<Ident>)>>
-     Defs::enums (IdMap) -> `.map(|(key, data)| (key.clone(), data.generate_lookup(consts))).collect()` into ConstNames::enums (IdMap), which is only indexed by key (llir/raise/early.rs); generate_lookup walks EnumData::consts, an IndexMap *)
-  mk_row "context/defs.rs" "CompilerContext::get_const_names" "iter" "defs.enums.iter()" 1 ["c0aa526eb3"; "70ff796cef"] (PinStmt "2d29797ea9") CollectHash "";
-  (* line 1094; defs:field: HashMap<Ident,RibEntry> ; instrs:field: IdMap<(LanguageKey,raw::Opcode),InsData>
-     returns `ins_sigs.chain(non_ins_sigs)`: the hash order of Defs::instrs is handed to the caller (site kind "call") *)
-  mk_row "context/defs.rs" "CompilerContext::all_signatures" "values" "self.defs.instrs.values()" 1 ["1fd467afe8"] (PinFn "f24c1477d2") ReturnedIterator "";
-  (* line 1095; defs:field: HashMap<Ident,RibEntry> ; funcs:field: IdMap<DefId,FuncData>
-     as above, Defs::funcs *)
-  mk_row "context/defs.rs" "CompilerContext::all_signatures" "values" "self.defs.funcs.values()" 1 ["3fc400d9dd"] (PinFn "f24c1477d2") ReturnedIterator "";
-  (* line 1100; all_signatures():fn context/defs.rs returns an iterator over a hash container (self.defs.instrs.values())
-     DEFECT: `.map(|siggy| .. validate_param_ty_color ..).collect_with_recovery()` emits one "no such enum" error per bad signature, in the hash order of Defs::instrs (fixes/c19-signature-validation-order.diff) *)
-  mk_row "context/defs.rs" "CompilerContext::validate_mapfile_signatures" "call" "self.all_signatures()" 1 ["b8cf4eaf93"] (PinStmt "ce70d7d8bf") EmitInIterationOrder "validate_mapfile_signatures/all_signatures";
-  (* line 1155; enums:field: IdMap<Ident,EnumData>|field: IdMap<Ident,ScalarValueMap<Sp<Ident>>>|field: IdMap<Sp<Ident>,Vec<(i32,Sp<Ident>)>>
-     DEFECT: `.min_by_key(|&(_, distance)| distance)`: of several equally close enum names the first in hash order is suggested (fixes/c19-similar-enum-tiebreak.diff) *)
-  mk_row "context/defs.rs" "Defs::find_similar_enum_name" "keys" "self.enums.keys()" 1 ["c0aa526eb3"; "70ff796cef"] (PinStmt "f2651dc75b") MinByKeyFirstWins "find_similar_enum_name/enums.keys";
-  (* line 1375; clashing_names_for_regs:let = IdMap::<RegId,IdMap<UsedName,UsedNameData>>::new();
-     DEFECT (DESIGN section 6 #9): one `warning!("register {} used under multiple names")` is emitted per entry of an IdMap<RegId, ..>, in hash order (fixes/c19-ordered-register-maps.diff) *)
-  mk_row "llir/lower/stackless.rs" "assign_registers" "for" "for (reg,used_names)in clashing_names_for_regs" 1 ["c44617be49"] (PinStmt "d61100d5d0") EmitInIterationOrder "assign_registers/clashing_names_for_regs";
-  (* line 1378; used_names:bound by a for pattern over a nested hash container (clashing_names_for_regs)
-     inner IdMap<UsedName, UsedNameData> of one register: every entry becomes a primary label of ONE diagnostic; the spans are single tokens of one file (a parameter name, a register token), pairwise distinct, which codespan lays out by range; the notes are all the same string (param_note). (the map becomes a BTreeMap with fixes/c19-ordered-register-maps.diff) *)
-  mk_row "llir/lower/stackless.rs" "assign_registers" "for" "for (_,UsedNameData{span,note})in used_names" 1 ["291e38cfa3"] (PinStmt "cd284279e1") SortedByRenderer "";
-  (* line 1421; implicitly_used_regs:param: &HashMap<RegId,(ScalarType,Span)>
-     DEFECT: one `error.secondary(scratch_span, "{} holds this")` label per entry of a HashMap<RegId, ..> in hash order; codespan numbers multi-line labels in the order given, so the rendering of the "script too complex" error differs between launches when the scratch registers hold multi-line expressions (fixes/c19-ordered-register-maps.diff) *)
-  mk_row "llir/lower/stackless.rs" "script_too_complex" "for" "for (&scratch_reg,&(scratch_ty,scratch_span))in implicitly_used_regs" 1 ["5e3b997814"] (PinStmt "efb3725827") EmitInIterationOrder "script_too_complex/implicitly_used_regs";
-  (* line 25; instrs:field: IdMap<(LanguageKey,raw::Opcode),InsData>
-     `instrs` is a Vec / slice of instructions; the name collides with Defs::instrs *)
-  mk_row "llir/raise/infer_pcb_signatures.rs" "CallRegSignatures::infer_from_calls" "for" "for instr in&mut script.instrs" 1 ["2422e9ab6a"] PinDecl NotHash "";
-  (* line 210; defs:field: HashMap<Ident,RibEntry>
-     Defs::initial_ribs returns a Vec built from two EnumMap<LanguageKey, Rib> (in key order) and two single ribs; `defs` collides with rib::Rib::defs *)
-  mk_row "resolve/mod.rs" "Visitor::new" "into_iter" "ctx.defs.initial_ribs().into_iter()" 1 ["597f776878"] PinDecl NotHash "";
-  (* line 86; var_values:field: HashMap<VarId,VarValue>
-     Display for AstVm (used by tests only): entries are pushed to `others` / `regs`, both `sort_by_key(|&(id, _)| id)` before printing *)
-  mk_row "vm.rs" "AstVm::fmt" "for" "for (&var_id,value)in&self.var_values" 1 ["56db49ee97"] (PinFn "9710486c87") CollectThenSort "";
-  (* line 1095; defs:field: HashMap<Ident,RibEntry> ; instrs:field: IdMap<(LanguageKey,raw::Opcode),InsData>
-     after fixes/c19-signature-validation-order.diff: `.iter().map(..).collect::<Vec<_>>()` then `sort_by_key(|&(key, _)| key)`; keys of one map are distinct *)
-  mk_row "context/defs.rs" "CompilerContext::all_signatures" "iter" "self.defs.instrs.iter()" 1 ["1fd467afe8"] (PinFn "17441ce31c") CollectThenSort "";
-  (* line 1097; defs:field: HashMap<Ident,RibEntry> ; funcs:field: IdMap<DefId,FuncData>
-     as above *)
-  mk_row "context/defs.rs" "CompilerContext::all_signatures" "iter" "self.defs.funcs.iter()" 1 ["3fc400d9dd"] (PinFn "17441ce31c") CollectThenSort "";
-  (* line 1103; all_signatures():fn context/defs.rs returns an iterator over a hash container (self.defs.instrs.iter())
-     after fixes/c19-signature-validation-order.diff: the callee sorts both vectors by key before chaining them (this digest covers the callee text) *)
-  mk_row "context/defs.rs" "CompilerContext::validate_mapfile_signatures" "call" "self.all_signatures()" 1 ["bffb93324c"] (PinStmt "1774c2f2ec") CollectThenSort "";
-  (* line 1158; enums:field: IdMap<Ident,EnumData>|field: IdMap<Ident,ScalarValueMap<Sp<Ident>>>
-     after fixes/c19-similar-enum-tiebreak.diff: `.min_by_key(|&(candidate, distance)| (distance, candidate))`: a total order on distinct names *)
-  mk_row "context/defs.rs" "Defs::find_similar_enum_name" "keys" "self.enums.keys()" 1 ["c0aa526eb3"; "70ff796cef"] (PinStmt "96097af053") MinByTotalKey ""
+  (* src/vm.rs impl Display for AstVm (used by the test suite only) -- var_values: HashMap<VarId, VarValue>
+     the loop pushes every entry to `others` / `regs`; both are `sort_by_key(|&(id, _)| id)` before anything is printed (whole fn pinned) *)
+  mk_row "vm.rs" "AstVm::fmt" "for" "for (&var_id,value)in&self.var_values" 1 ["56db49ee97"] (PinFn "9710486c87") CollectThenSort ""
 ].
 
 Definition row_matches (r : row) (s : site) : bool :=
@@ -107,15 +88,11 @@ Definition classification (s : site) : shape :=
 Definition tag_of (s : site) : string :=
   match row_of s with Some r => r_tag r | None => "" end.
 
-(* Defects of the pinned tree that are recorded, not repaired (known_findings.d/C19.json, class c19-site:<tag>).
-   A tag stays here after its patch is applied: no site carries it any more. *)
-Definition open_defect_tags : list string := [
-  "assign_registers/clashing_names_for_regs";
-  "script_too_complex/implicitly_used_regs";
-  "extend_from_mapfile/mapfile.enums";
-  "validate_mapfile_signatures/all_signatures";
-  "find_similar_enum_name/enums.keys"
-].
+(* Tags of order-dependent sites that are recorded as OPEN findings (known_findings.d/C19.json, class c19-site:<tag>) instead of
+   being repaired.  Empty: the five sites found on the pinned tree (assign_registers/clashing_names_for_regs,
+   script_too_complex/implicitly_used_regs, extend_from_mapfile/mapfile.enums, validate_mapfile_signatures/all_signatures,
+   find_similar_enum_name/enums.keys) were repaired by commits d79165b, bba6707, c2b9bc7, eb822a9 and their rows are gone. *)
+Definition open_defect_tags : list string := [].
 
 Definition is_open_defect (s : site) : bool := existsb (String.eqb (tag_of s)) open_defect_tags.
 
